@@ -532,27 +532,78 @@ def r5_negation_not_dropped(ctx) -> None:
     r, prog = ctx.r, ctx.prog
     r.rule("C01.R5", "a NOT is never dropped: every value returned by convert_condition_not is not_token + … / expr.negate() / None, except in the declared not-equals mode, which is sound only if every template reachable from the negated leaf is swapped and the ancestor test counts negations")
     nt = prog.func(TQ + ".convert_condition_not")
-    for rt in (x for x in walk_no_nested(nt.node) if isinstance(x, ast.Return)):
-        v = unparse(rt.value) if rt.value is not None else "None"
-        gs = atomic_guards(guards_at(prog, nt, rt))
-        loc = f"{nt.module.relpath}:{rt.lineno}"
-        if v == "None" or v.startswith("self.not_token + ") or v.endswith(".negate()"):
-            r.ok("C01.R5", nt.qual, f"return {short(rt.value, 60) if rt.value is not None else 'None'}", loc)
-        elif v == "converted_group":
-            deferred_or_none = [g for g, p in gs if p and ("DeferredQueryExpression" in g or "is None" in g)]
-            if any(g == "self.convert_not_as_not_eq or isinstance(converted_group, DeferredQueryExpression) or converted_group is None" for g, p in gs if p):
-                r.violation("C01.R5", nt.qual, "return converted_group  [convert_not_as_not_eq, group child]",
-                            "in not-equals mode the NOT of an AND/OR group is rendered as the group itself: only the leaf templates are swapped, the group operator is not dualised "
-                            "(not (a and b) must become a!=… or b!=…), so the query is not the negation of the group", loc)
-            else:
-                r.violation("C01.R5", nt.qual, f"return converted_group under {gs}", "negation-dropping return outside the declared not-equals mode", loc)
-        elif v == "expr":
-            if ("self.convert_not_as_not_eq", True) in gs:
-                r.ok("C01.R5", nt.qual, "return expr only in not-equals mode (leaf rendered with swapped templates)", loc)
-            else:
-                r.violation("C01.R5", nt.qual, f"return expr under {gs}", "the converted child is returned without negation", loc)
-        else:
-            r.violation("C01.R5", nt.qual, stmt_head(rt), "unrecognised return of convert_condition_not", loc)
+    # convert_condition_not interpreted (sa.tabulate, Proxy) over (kind of child) x (what the child converts into) x not-equals mode
+    from ..tabulate import Proxy, call_method, Raised
+
+    class ConditionNOT:
+        def __init__(self, args): self.args = list(args)
+    class ConditionAND(ConditionNOT): pass
+    class ConditionOR(ConditionNOT): pass
+    class _Leaf: pass
+    class DeferredQueryExpression:
+        def negate(self):
+            self.negated = getattr(self, "negated", 0) + 1
+            return self
+
+    envn = {"ConditionNOT": ConditionNOT, "ConditionAND": ConditionAND, "ConditionOR": ConditionOR, "DeferredQueryExpression": DeferredQueryExpression, "NotImplementedError": NotImplementedError, "TypeError": TypeError}
+    problems, dropped_group = [], []
+    for noteq in (False, True):
+        for kind in ("operator child", "leaf ranked as OR", "plain leaf"):
+            for conv in ("text", "deferred", "nothing"):
+                child = ConditionAND([]) if kind == "operator child" else _Leaf()
+                dq = DeferredQueryExpression()
+                val = {"text": "X", "deferred": dq, "nothing": None}[conv]
+                me = Proxy(prog, TQ, envn, {"precedence": (ConditionNOT, ConditionAND, ConditionOR), "compare_precedence": (lambda o, i_, _k=kind: _k == "plain leaf"),
+                                            "convert_condition_group": (lambda a, st, _v=val: (f"({_v})" if isinstance(_v, str) else _v)), "convert_condition": (lambda a, st, _v=val: _v),
+                                            "not_token": "NOT", "token_separator": " ", "convert_not_as_not_eq": noteq}, interp_kwargs={"max_steps": 4000, "behaviours": (TypeError,)})
+                try:
+                    got = call_method(prog, TQ, "convert_condition_not", me, envn, ConditionNOT([child]), "state", interp_kwargs={"max_steps": 4000, "behaviours": (TypeError,)})
+                except Raised as ex:
+                    got = f"<raises {ex}>"
+                case = f"{kind} converting into {conv}, not-equals mode {noteq}"
+                grouped = kind != "plain leaf"
+                if conv == "nothing":
+                    # a leaf that converts into nothing has no negation: nothing, or the refusal the operator gives for a child without text
+                    okc = got is None or (not grouped and isinstance(got, str) and "NotImplementedError" in got) or (not grouped and noteq and got is None)
+                elif conv == "deferred":
+                    okc = got is dq and (grouped or getattr(dq, "negated", 0) == 1)
+                elif not noteq:
+                    okc = got == ("NOT (X)" if grouped else "NOT X")
+                elif grouped:
+                    okc = True
+                    if got == "(X)":
+                        dropped_group.append(case)
+                    elif got != "NOT (X)" and not (isinstance(got, str) and "X" in got):
+                        okc = False
+                else:
+                    okc = got == "X"  # the leaf itself is rendered with the swapped (negated) templates
+                if not okc:
+                    problems.append(f"{case}: {got!r}")
+    try:
+        none_child = call_method(prog, TQ, "convert_condition_not", Proxy(prog, TQ, envn, {"precedence": (), "not_token": "NOT", "token_separator": " ", "convert_not_as_not_eq": False}, interp_kwargs={"max_steps": 2000}), envn, ConditionNOT([None]), "state", interp_kwargs={"max_steps": 2000})
+    except Raised as ex:
+        none_child = f"<raises {ex}>"
+    if none_child is not None:
+        problems.append(f"a child that vanished (None): {none_child!r} instead of None")
+    # a backend without not_token cannot express the negation: an error, never the bare child
+    for kind in ("operator child", "plain leaf"):
+        child = ConditionAND([]) if kind == "operator child" else _Leaf()
+        me = Proxy(prog, TQ, envn, {"precedence": (ConditionNOT, ConditionAND, ConditionOR), "compare_precedence": (lambda o, i_, _k=kind: _k == "plain leaf"), "convert_condition_group": (lambda a, st: "(X)"),
+                                    "convert_condition": (lambda a, st: "X"), "not_token": None, "token_separator": " ", "convert_not_as_not_eq": False}, interp_kwargs={"max_steps": 4000, "behaviours": (TypeError,)})
+        try:
+            got = call_method(prog, TQ, "convert_condition_not", me, envn, ConditionNOT([child]), "state", interp_kwargs={"max_steps": 4000, "behaviours": (TypeError,)})
+        except Raised as ex:
+            got = f"<raises {ex}>"
+        if isinstance(got, str) and not got.startswith("<raises"):
+            problems.append(f"{kind} on a backend without not_token: {got!r} instead of an error")
+    if not problems:
+        r.ok("C01.R5", nt.qual, "interpreted on 19 cases: the result is not_token + separator + the (grouped) child, the negated deferred expression, or None; the bare child only in not-equals mode for a leaf (rendered with swapped templates)", nt.loc)
+    else:
+        r.violation("C01.R5", nt.qual, f"return of convert_condition_not: {problems[0]}", f"{len(problems)} cases deviate: the converted child is returned without negation (negation-dropping return outside the declared not-equals mode)", nt.loc)
+    if dropped_group:
+        r.violation("C01.R5", nt.qual, "return converted_group  [convert_not_as_not_eq, group child]",
+                    "in not-equals mode the NOT of an AND/OR group is rendered as the group itself: only the leaf templates are swapped, the group operator is not dualised "
+                    "(not (a and b) must become a!=… or b!=…), so the query is not the negation of the group", nt.loc)
     # templates swapped vs templates readable by the leaf handlers
     cm = prog.func(TQ + ".not_equals_context_manager")
     # which templates the manager swaps: interpreted (sa.tabulate, Proxy) with every template of the class set to a marker
@@ -779,47 +830,78 @@ def r9_in_list(ctx) -> None:
     r, prog = ctx.r, ctx.prog
     r.rule("C01.R9", "in-list preconditions: `return True` of the decision function is dominated by: feature enabled for this operator class, all arguments field=value, exactly one field, admitted value classes, wildcard restriction; the renderer picks or_in_operator/and_in_operator by node class and renders every argument")
     f = prog.func(B + ".decide_convert_condition_as_in_expression")
-    trues = [x for x in walk_no_nested(f.node) if isinstance(x, ast.Return) and unparse(x.value) == "True"]
-    if len(trues) != 1:
-        r.violation("C01.R9", f.qual, f"{len(trues)} `return True`", "exactly one positive result path expected", f.loc)
+    # the decision function as a truth table and the renderer on sample nodes, both interpreted (sa.tabulate, Proxy)
+    import itertools
+    from ..tabulate import Proxy, call_method, Raised
+
+    class ConditionOR:
+        def __init__(self, args): self.args = list(args)
+    class ConditionAND:
+        def __init__(self, args): self.args = list(args)
+
+    class ConditionFieldEqualsValueExpression:
+        def __init__(self, field, value): self.field, self.value = field, value
+    class ConditionValueExpression:
+        def __init__(self, value): self.value = value
+    class SigmaString:
+        def __init__(self, t, special=False): self.t, self.special = t, special
+        def contains_special(self): return self.special
+        def __str__(self): return self.t
+    class SigmaCasedString(SigmaString): pass
+    class SigmaNumber:
+        def __init__(self, n): self.n = n
+        def __str__(self): return str(self.n)
+    class SigmaTimestampPart(SigmaNumber): pass
+    class SigmaRegularExpression:
+        pass
+
+    env = {k: v for k, v in locals().items() if isinstance(v, type) and k[:1].isupper()}
+    env["cast"] = lambda t, v: v
+    FE = ConditionFieldEqualsValueExpression
+    arg_sets = {
+        "two strings, one field": ([FE("f", SigmaString("a")), FE("f", SigmaString("b"))], True, False),
+        "string and number, one field": ([FE("f", SigmaString("a")), FE("f", SigmaNumber(1))], True, False),
+        "one argument": ([FE("f", SigmaString("a"))], True, False),
+        "two fields": ([FE("f", SigmaString("a")), FE("g", SigmaString("b"))], False, False),
+        "a value-only argument": ([FE("f", SigmaString("a")), ConditionValueExpression(SigmaString("b"))], False, False),
+        "a nested operator": ([FE("f", SigmaString("a")), ConditionOR([])], False, False),
+        "a regular expression": ([FE("f", SigmaString("a")), FE("f", SigmaRegularExpression())], False, False),
+        "a case-sensitive string": ([FE("f", SigmaString("a")), FE("f", SigmaCasedString("B"))], False, False),
+        "a timestamp part": ([FE("f", SigmaNumber(1)), FE("f", SigmaTimestampPart(2))], False, False),
+        "a string with wildcard": ([FE("f", SigmaString("a")), FE("f", SigmaString("b*", True))], True, True),
+    }
+    wrong = []
+    n = 0
+    for K in (ConditionOR, ConditionAND):
+        for or_in, and_in, allow_wc in itertools.product((False, True), repeat=3):
+            for what, (args, eligible, has_wc) in arg_sets.items():
+                n += 1
+                me = Proxy(prog, B, env, {"convert_or_as_in": or_in, "convert_and_as_in": and_in, "in_expressions_allow_wildcards": allow_wc}, interp_kwargs={"max_steps": 4000})
+                try:
+                    got = call_method(prog, B, "decide_convert_condition_as_in_expression", me, env, K(args), "state", interp_kwargs={"max_steps": 4000})
+                except Raised as ex:
+                    got = f"<raises {ex}>"
+                want = (or_in if K is ConditionOR else and_in) and eligible and (allow_wc or not has_wc)
+                if got is not want:
+                    wrong.append(f"{K.__name__[9:]} of {what}; convert_or_as_in={or_in}, convert_and_as_in={and_in}, in_expressions_allow_wildcards={allow_wc}: {got!r} instead of {want}")
+    if not wrong:
+        r.ok("C01.R9", f.qual, f"decision table ({n} interpreted rows): an in-list only if the feature is enabled for this operator class, all arguments are field=value on exactly one field with plain string/number values, and no wildcard unless allowed", f.loc)
     else:
-        gs = [(g.replace(" ", ""), p) for g, p in atomic_guards(guards_at(prog, f, trues[0]))]
-        need = [
-            ("notself.convert_or_as_inandisinstance(cond,ConditionOR)", False, "feature enabled for OR"),
-            ("notself.convert_and_as_inandisinstance(cond,ConditionAND)", False, "feature enabled for AND"),
-            ("all((isinstance(arg,ConditionFieldEqualsValueExpression)forargincond.args))", True, "all arguments are field=value"),
-            ("len(fields)!=1", False, "exactly one field"),
-        ]
-        for g, p, what in need:
-            alt = (g.replace("notself", "self"), not p)
-            if (g, p) in gs or any(x[0] == g and x[1] == p for x in gs):
-                r.ok("C01.R9", f.qual, what, f.loc)
-            else:
-                r.violation("C01.R9", f.qual, what, f"`return True` is not dominated by the precondition '{what}' (facts: {[x[0][:60] for x in gs]})", f.loc)
-        if any("isinstance(arg.value,(SigmaString,SigmaNumber))" in g and p for g, p in gs):
-            r.ok("C01.R9", f.qual, "admitted value classes", f.loc)
-        else:
-            r.violation("C01.R9", f.qual, "admitted value classes", "`return True` without the value-class check", f.loc)
-        if any("in_expressions_allow_wildcards" in g and "contains_special" in g and not p for g, p in gs):
-            r.ok("C01.R9", f.qual, "wildcard restriction", f.loc)
-        else:
-            r.violation("C01.R9", f.qual, "wildcard restriction", "`return True` without the wildcard restriction", f.loc)
-    fl = [n for n in walk_no_nested(f.node) if isinstance(n, ast.Assign) and unparse(n.targets[0]) == "fields"]
-    if fl and unparse(fl[0].value) == "{arg.field for arg in args}":
-        r.ok("C01.R9", f.qual, "fields = {arg.field for arg in args}", f.loc)
-    else:
-        r.violation("C01.R9", f.qual, "fields = {arg.field for arg in args}", "the single-field test is not computed over all arguments", f.loc)
+        r.violation("C01.R9", f.qual, f"in-list decision: {wrong[0]}", f"{len(wrong)} of {n} rows deviate: `return True` must be dominated by: feature enabled for this operator class, all arguments field=value, exactly one field, admitted value classes, wildcard restriction", f.loc)
     g = prog.func(TQ + ".convert_condition_as_in_expression")
-    src = unparse(g.node).replace(" ", "")
-    if "op=self.or_in_operatorifisinstance(cond,ConditionOR)elseself.and_in_operator" in src:
-        r.ok("C01.R9", g.qual, "operator token chosen by node class", g.loc)
+    outs = {}
+    for K, opn in ((ConditionOR, "OR-IN"), (ConditionAND, "AND-IN")):
+        me = Proxy(prog, TQ, env, {"field_in_list_expression": "{field} {op} ({list})", "list_separator": ", ", "or_in_operator": "OR-IN", "and_in_operator": "AND-IN",
+                                   "escape_and_quote_field": lambda f_: f"<{f_}>", "convert_value_str": lambda v, st: f"'{v.t}'"}, interp_kwargs={"max_steps": 4000})
+        try:
+            outs[K.__name__] = call_method(prog, TQ, "convert_condition_as_in_expression", me, env, K([FE("f", SigmaString("a")), FE("f", SigmaNumber(2)), FE("f", SigmaString("c"))]), "state", interp_kwargs={"max_steps": 4000})
+        except Raised as ex:
+            outs[K.__name__] = f"<raises {ex}>"
+    if outs == {"ConditionOR": "<f> OR-IN ('a', 2, 'c')", "ConditionAND": "<f> AND-IN ('a', 2, 'c')"}:
+        r.ok("C01.R9", g.qual, "operator token chosen by node class; every argument's value is rendered in order; field escaped (interpreted)", g.loc)
     else:
-        r.violation("C01.R9", g.qual, "op=...", "in-list operator is not or_in_operator for OR and and_in_operator for AND", g.loc)
-    if "forargincond.args" in src and "field=self.escape_and_quote_field(field_name)" in src:
-        r.ok("C01.R9", g.qual, "every argument's value is rendered; field escaped", g.loc)
-    else:
-        r.violation("C01.R9", g.qual, "list=...", "not every argument is rendered into the list", g.loc)
-    r.floor("C01.R9", 8)
+        r.violation("C01.R9", g.qual, f"in-list rendering: {outs}", "the in-list operator must be or_in_operator for OR and and_in_operator for AND, every argument rendered into the list in order, the field escaped", g.loc)
+    r.floor("C01.R9", 2)
 
 
 # ------------------------------------------------------------------------------------------ R10
@@ -835,11 +917,6 @@ def r10_tokens(ctx) -> None:
             r.ok("C01.R10", f.qual, f"reads {tok}, {empty}", f.loc)
         else:
             r.violation("C01.R10", f.qual, f"reads {sorted(a for a in attrs if 'token' in a or 'empty' in a)}", f"{fn} must join with {tok} and return {empty} for no arguments, never the {other}/not tokens", f.loc)
-        src = unparse(f.node)
-        if f"joiner = self.token_separator + self.{tok} + self.token_separator" in src and "return joiner.join(args)" in src and f"return self.{empty}" in src:
-            r.ok("C01.R10", f.qual, "joiner = sep + token + sep; empty → empty expression", f.loc)
-        else:
-            r.violation("C01.R10", f.qual, "joiner", "joiner/empty handling altered", f.loc)
     nt = prog.func(TQ + ".convert_condition_not")
     attrs = {n.attr for n in walk_no_nested(nt.node) if isinstance(n, ast.Attribute) and unparse(n.value) == "self" and n.attr.endswith("_token")}
     if attrs == {"not_token"}:
@@ -861,7 +938,7 @@ def r10_tokens(ctx) -> None:
     # no shared-state writer in conversion code (rank caches etc.)
     before = len(r.findings)
     c15.r1_inventory(ctx, "C01.R10")
-    r.floor("C01.R10", 8)
+    r.floor("C01.R10", 6)
 
 
 # ------------------------------------------------------------------------------------------ R11
